@@ -1,7 +1,8 @@
 //! Real-macro binary of group `sample`: `#[divan::bench]` functions covering the
 //! arms of the attribute macro's wrapper generation (`make_bench_fn`): Rust ABI
 //! `fn() -> O`, `extern "C"` / `extern "system"` `fn() -> O`, generic
-//! `extern "C" fn<T>() -> O`, `fn(arg) -> O` with `args = [..]`, `fn(Bencher)`,
+//! `extern "C" fn<T>() -> O`, `fn(arg) -> O` with `args = [..]` (also with a `Copy` argument
+//! type whose `Clone` is logging, allocating user code, and by reference), `fn(Bencher)`,
 //! `extern "C" fn(Bencher)`, `fn(Bencher, arg)`.  Run by `hx-sample e2e` as a
 //! subprocess, one benchmark per process, through the real `Divan::from_args().main()`
 //! with the TSC timer on the virtual clock.
@@ -22,6 +23,7 @@ static ALLOC: divan::AllocProfiler = divan::AllocProfiler::system();
 
 const CALL: u8 = v::ev::USER + 2;
 const DROP_OUT: u8 = v::ev::USER + 4;
+const CLONE: u8 = v::ev::USER + 7;
 
 thread_local! {
     static CALL_ORD: Cell<u64> = const { Cell::new(0) };
@@ -93,6 +95,34 @@ fn with_arg(n: u64) -> Out {
     work()
 }
 
+/// A `Copy` argument type whose hand-written `Clone` is user code: it logs itself and allocates.
+/// The macro's glue must hand it to the function by bit copy, never through `clone`
+/// (the conversion sits inside the closure given to `Bencher::bench`, i.e. in the timed section).
+#[derive(Copy, Debug)]
+pub struct Key(u64);
+
+impl Clone for Key {
+    fn clone(&self) -> Self {
+        v::log_event(CLONE, ((v::thread_index() as u64) << 32) | self.0, 0);
+        let mut scratch = Vec::<u8>::with_capacity(24);
+        std::hint::black_box(scratch.as_mut_ptr());
+        drop(scratch);
+        Key(self.0)
+    }
+}
+
+#[divan::bench(args = [Key(1), Key(2)])]
+fn key_arg(k: Key) -> Out {
+    std::hint::black_box(k.0);
+    work()
+}
+
+#[divan::bench(args = [Key(1)])]
+fn key_ref_arg(k: &Key) -> Out {
+    std::hint::black_box(k.0);
+    work()
+}
+
 #[divan::bench]
 fn bencher_plain(b: Bencher) {
     b.bench(work)
@@ -139,6 +169,7 @@ fn main() {
             v::ev::TALLY_SNAPSHOT => "snap".to_string(),
             CALL => format!("c{}/{}", fmt_id(e.a), fmt_id(e.b)),
             DROP_OUT => format!("{}{}", if e.b == 1 { "x" } else { "o" }, fmt_id(e.a)),
+            CLONE => format!("q{}", fmt_id(e.a)),
             k => format!("?{k}"),
         };
         per_thread[e.thread as usize].push(s);
